@@ -70,6 +70,10 @@ KUNITS['K-SLABMEM'] = [H('symbol_slab::verif_hooks::kani_slab::slab_%s%s' % (op,
     H('symbol_slab::verif_hooks::kani_slab::slab_pair_refuses_bad_indices', False, bound='3 symbols of 4 bytes', refusal=True, covers=False)]
 KJOBS['K-SLABMEM'] = 9
 
+KUNITS['K-LAYOUT'] = [H('encoder::verif_hooks::kani_enc::create_symbols_layout_%s' % n, False, covers=False, timeout='20m',
+                         bound='one concrete configuration (T, Al, N, K) = %s, symbolic data' % cfgs,
+                         functions=['src/encoder.rs SourceBlockEncoder::create_symbols'] if n == 'even' else [])
+                       for n, cfgs in (('even', '(6,2,3,2)'), ('uneven', '(5,1,3,2)'), ('uneven_aligned', '(8,2,3,2)'), ('single_sub_block', '(4,1,1,3)'))]
 # Verus gives no counterexample: these Kani harnesses of the same contract are run only after a Verus obligation failed
 WITNESS = {
     'V-RNG': [H('rng::verif_hooks::kani_rng::rand_xor_value_matches_rfc', True, timeout='10m')],
@@ -118,14 +122,14 @@ PROPS = {
                      'no panic inside a critical section other than allocation failure (no arithmetic/index obligations remain there), so poisoning is unreachable'],
         not_decided=['that the encoder built from a plan equals the one built without a plan (plan replay == direct solve): see C06/C09 V-SLAB']),
     'C18': dict(
-        level='proof', units=[('V', 'V-ENC', 'v_enc')],
+        level='proof', units=[('V', 'V-ENC', 'v_enc'), ('V', 'V-ENCNEW', 'v_encnew')],
         explanation='repair_packets(start, n) extracted verbatim: for all K <= 56403, start, n with K + start + n <= 2^24: exactly n packets, packet i == repair_packet_spec(encoder, start + i) '
                     '(block number, ESI K+start+i, payload Enc over ISI K\'+start+i); window==singles, overlap agreement, distinct IDs, every ESI < 2^24 producible are lemmas over that contract',
         assumptions=['intermediate_tuple / enc_into / table look-ups are external_body here: deterministic functions of their arguments (their values are decided under C15/C04)',
                      'Verus/Z3 sound'],
         not_decided=['ordering of Encoder::get_encoded_packets and source_packets (iterator chains; bounded Kani unit K-PKTS planned)', 'plan interchangeability rests on generate() being deterministic (C17 assumption)']),
     'C01': dict(
-        level='proof', units=[('V', 'V-DEC', 'v_dec'), ('V', 'V-UNPACK', 'v_unpack'), ('V', 'V-BLOCKS', 'v_blocks')],
+        level='proof', units=[('V', 'V-DEC', 'v_dec'), ('V', 'V-UNPACK', 'v_unpack'), ('V', 'V-BLOCKS', 'v_blocks'), ('V', 'V-ENCNEW', 'v_encnew')],
         explanation='everything around the solver, for all inputs: the block decoder state is an exact record of the distinct packets received (INV); its answer is answer_spec(state): None below K distinct symbols, '
                     'the un-interleaved source symbols when all K arrived (no solver involved: always answers), otherwise the block assembled from the solver result for exactly the ISI list and D vector RFC 6330 prescribes; '
                     'the object decoder memoises block answers, concatenates them in block order and truncates to F (never longer); un-interleaving writes exactly the RFC layout positions (V-UNPACK); '
@@ -150,11 +154,13 @@ PROPS = {
         assumptions=[SOLVER_ASSUMED + ' -- in particular the final answer is independent of the ORDER of repair rows only if the solver is exact', 'derive(Clone) is a structural copy (std)'],
         not_decided=['order independence of the solver result under permutation of repair rows (solver contract)']),
     'C05': dict(
-        level='proof', units=[('V', 'V-PART', 'v_part'), ('V', 'V-BLOCKS', 'v_blocks'), ('V', 'V-UNPACK', 'v_unpack'), ('V', 'V-DEC', 'v_dec')],
+        level='proof', units=[('V', 'V-PART', 'v_part'), ('V', 'V-BLOCKS', 'v_blocks'), ('V', 'V-ENCNEW', 'v_encnew'), ('V', 'V-UNPACK', 'v_unpack'), ('V', 'V-DEC', 'v_dec'), ('K', 'K-LAYOUT', None)],
         explanation='Partition[I,J] characterised over integers (generic function, all inputs); calculate_block_offsets returns Z contiguous blocks, ZL of KL*T then ZS of KS*T bytes covering exactly Kt*T >= F with less than one symbol of padding; '
+                    'Encoder::new builds block encoder b with number b from exactly (object ++ zeros)[start_b..end_b] and a plan for its symbol count (only the tail of the last block reaches the zeros); '
                     'Decoder::new creates Z block decoders numbered 0..Z-1 with KL/KS symbols and the configured T, N, Al; unpack_sub_blocks writes symbol idx to the positions of the RFC 4.4.1.2 layout for all T, Al, N, K',
         assumptions=['valid configuration additionally has T >= 1, Z >= 1, 1 <= N <= T/Al (RFC 4.4.1.2)', 'Verus/Z3 sound'],
-        not_decided=['encoder side create_symbols (sub-block interleaving) and Encoder::new (zero padding, block numbers, source ESIs): iterator chains outside the extraction rules; bounded Kani unit K-LAYOUT planned']),
+        not_decided=['encoder side create_symbols (sub-block interleaving): iterator chains outside the extraction rules, covered only by the BOUNDED Kani unit K-LAYOUT (4 small concrete configurations, symbolic data)',
+                     'source ESIs of source_packets (iterator chain; bounded harness did not finish)']),
     'C09': dict(
         level='proof', units=[('V', 'V-SLAB', 'v_slab'), ('K', 'K-SLABMEM', None)],
         explanation='for all symbol counts and sizes: SymbolSlab::add_assign / mulassign_scalar / fma / set_reorder and perform_op realise apply_op on the logical symbols (whole view: every other symbol unchanged), '
@@ -165,7 +171,7 @@ PROPS = {
                      'Enc (enc_into) as xor of intermediate symbols at the RFC index sequence: index sequence decided by K-ENCIDX on the twin enc_indices; enc_into itself external'],
         not_decided=['additivity / homogeneity stated as consequences, not as separate machine-checked lemmas', 'enc_into body (same loop shape as enc_indices) not under contract']),
     'C06': dict(
-        level='proof', units=[('V', 'V-SLAB', 'v_slab'), ('K', 'K-TAB', None)],
+        level='proof', units=[('V', 'V-SLAB', 'v_slab'), ('V', 'V-TAB', 'v_tab'), ('K', 'K-TAB', None)],
         explanation='decided part only: plan replay applies exactly the op list with the slab interpreter (gen_intermediate_symbols_with_plan == apply_ops over the D vector), the final Reorder is the only '
                     'logical->physical mapping and get/get_mut/get_pair_mut honour it, a plan generated on 1-byte symbols is valid for every symbol size (column independence); table well-formedness for all 477 rows',
         assumptions=['kernel contracts (K-KERN)', SOLVER_ASSUMED],
